@@ -1,4 +1,5 @@
 """C10: MSM satellite, signal and cell masks follow the standard for any input order."""
+import os
 import msm
 import sorting
 
@@ -28,3 +29,10 @@ def run(ctx, res):
     sorting.rule_sort(prog, res)
     import bitio
     bitio.import_transport(prog, res, signed=False)
+    # "the signal mask exactly the bits of the signals' identifiers ... decoding returns the same sets in that order": the identifier map has to be
+    # injective with to_sig as its inverse (C18's Y-tab, without the standard's positions), and the order the rows are sorted by has to be the order
+    # of the identifiers for recognised signals (Y-ord, that clause only; Y-part for callers going through partial_cmp)
+    import sigtab, engine
+    view = engine.Filtered(res, {"Y-tab", "Y-ord", "Y-part"}, key_contains={"Y-ord": ("both recognised",)})
+    sigtab.rule_tables(prog, view, os.path.join(engine.VERIF, "oracles", "msm_signals.json"))
+    sigtab.rule_order(prog, view)
